@@ -14,11 +14,11 @@ attribute [local irreducible] wrapSubU32 wrapSubUsize
 
 /-- proves `SameR x (f x)` for the stream methods that do not touch the receive side -/
 syntax "samer" : tactic
-macro_rules | `(tactic| samer) => `(tactic| with_reducible exact ⟨rfl, rfl, rfl, fun h => h⟩)
+macro_rules | `(tactic| samer) => `(tactic| with_reducible exact ⟨rfl, rfl, rfl, fun h => h, fun h => h⟩)
 
 theorem notifySend_same (x : Stream) : SameR x x.notifySend.1 := by
   unfold Stream.notifySend
-  cases h1 : x.sendTask <;> cases h2 : x.openTask <;> simp only [h1, h2] <;> exact ⟨rfl, rfl, rfl, fun h => h⟩
+  cases h1 : x.sendTask <;> cases h2 : x.openTask <;> simp only [h1, h2] <;> exact ⟨rfl, rfl, rfl, fun h => h, fun h => h⟩
 macro_rules | `(tactic| samer) => `(tactic| with_reducible exact notifySend_same _)
 
 theorem notifyRecv_same (x : Stream) : SameR x x.notifyRecv.1 := by
@@ -30,12 +30,12 @@ theorem notifyPush_same (x : Stream) : SameR x x.notifyPush.1 := by
 macro_rules | `(tactic| samer) => `(tactic| with_reducible exact notifyPush_same _)
 
 theorem notifyCapacity_same (x : Stream) : SameR x x.notifyCapacity.1 :=
-  SameR.trans (y := { x with sendCapacityInc := true }) ⟨rfl, rfl, rfl, fun h => h⟩ (notifySend_same _)
+  SameR.trans (y := { x with sendCapacityInc := true }) ⟨rfl, rfl, rfl, fun h => h, fun h => h⟩ (notifySend_same _)
 macro_rules | `(tactic| samer) => `(tactic| with_reducible exact notifyCapacity_same _)
 
 theorem assignCapacity_same (x : Stream) (a b : Nat) : SameR x (x.assignCapacity a b).1 := by
   unfold Stream.assignCapacity; simp only []; split
-  · exact SameR.trans (y := { x with sendFlow := (x.sendFlow.assignCapacity a).1 }) ⟨rfl, rfl, rfl, fun h => h⟩
+  · exact SameR.trans (y := { x with sendFlow := (x.sendFlow.assignCapacity a).1 }) ⟨rfl, rfl, rfl, fun h => h, fun h => h⟩
       (notifyCapacity_same _)
   · samer
 macro_rules | `(tactic| samer) => `(tactic| with_reducible exact assignCapacity_same _ _ _)
@@ -64,6 +64,21 @@ elab "abstract_const " f:ident c:ident " as " g:ident : command => liftTermElabM
   let hints := ReducibilityHints.regular (getMaxHeight (← getEnv) gval + 1)
   addDecl (.defnDecl { name := gname, levelParams := [], type := gty, value := gval, hints := hints, safety := .safe })
 
+open Lean Elab Command Term Meta in
+/-- `kernel_rfl name : ∀ xs, lhs = rhs`: adds the theorem with proof `fun xs => Eq.refl lhs`, checked by
+    the kernel only (the elaborator's own `isDefEq` reduces matchers eagerly and runs into the unary
+    `x + 2^64`; the kernel compares the two sides structurally first) -/
+elab "kernel_rfl " n:ident " : " t:term : command => liftTermElabM do
+  let stmt ← elabType t
+  synthesizeSyntheticMVarsNoPostponing
+  let stmt ← instantiateMVars stmt
+  if stmt.hasMVar || stmt.hasFVar then throwError "kernel_rfl: statement not closed"
+  let prf ← forallTelescope stmt fun xs body => do
+    let some (_, lhs, _) := body.eq? | throwError "kernel_rfl: not an equation"
+    mkLambdaFVars xs (← mkEqRefl lhs)
+  let name := (← getCurrNamespace) ++ n.getId
+  addDecl (.thmDecl { name := name, levelParams := [], type := stmt, value := prf })
+
 abstract_const Stream.sendData Nat.decLt as sendDataG
 
 theorem sendData_eq_G : Stream.sendData = sendDataG Nat.decLt := rfl
@@ -79,22 +94,22 @@ theorem sendDataG_same (inst : ∀ p q : Nat, Decidable (p < q)) (x : Stream) (a
   | isTrue h =>
     simp only [if_pos h]
     exact SameR.trans (y := { x with sendFlow := fl, bufferedSendData := wrapSubUsize x.bufferedSendData a, requestedSendCapacity := wrapSubU32 x.requestedSendCapacity a })
-      ⟨rfl, rfl, rfl, fun h => h⟩ (notifyCapacity_same _)
+      ⟨rfl, rfl, rfl, fun h => h, fun h => h⟩ (notifyCapacity_same _)
   | isFalse h =>
     simp only [if_neg h]
-    exact ⟨rfl, rfl, rfl, fun h => h⟩
+    exact ⟨rfl, rfl, rfl, fun h => h, fun h => h⟩
 
 theorem sendData_same (x : Stream) (a b : Nat) : SameR x (x.sendData a b).1 := by
   rw [sendData_eq_G]; exact sendDataG_same _ x a b
 macro_rules | `(tactic| samer) => `(tactic| with_reducible exact sendData_same _ _ _)
 
 theorem setQueued_same (x : Stream) (q : QName) (v : Bool) : SameR x (x.setQueued q v) := by
-  cases q <;> exact ⟨rfl, rfl, rfl, fun h => h⟩
+  cases q <;> exact ⟨rfl, rfl, rfl, fun h => h, fun h => h⟩
 macro_rules | `(tactic| samer) => `(tactic| with_reducible exact setQueued_same _ _ _)
 
-theorem waitSend_same (x : Stream) (t : String) : SameR x (x.waitSend t) := ⟨rfl, rfl, rfl, fun h => h⟩
+theorem waitSend_same (x : Stream) (t : String) : SameR x (x.waitSend t) := ⟨rfl, rfl, rfl, fun h => h, fun h => h⟩
 macro_rules | `(tactic| samer) => `(tactic| with_reducible exact waitSend_same _ _)
-theorem waitOpen_same (x : Stream) (t : String) : SameR x (x.waitOpen t) := ⟨rfl, rfl, rfl, fun h => h⟩
+theorem waitOpen_same (x : Stream) (t : String) : SameR x (x.waitOpen t) := ⟨rfl, rfl, rfl, fun h => h, fun h => h⟩
 macro_rules | `(tactic| samer) => `(tactic| with_reducible exact waitOpen_same _ _)
 
 -- the state transitions: a closed state stays closed
@@ -142,40 +157,53 @@ theorem sendClose_closed (st st' : State) (h : st.isClosed = true) (h' : st.send
 theorem setReset_same (x : Stream) (r : Reason) (i : Initiator) : SameR x (x.setReset r i).1 := by
   unfold Stream.setReset
   simp only []
-  refine SameR.trans (y := { x with state := x.state.setReset x.id r i }) ⟨rfl, rfl, rfl, fun _ => rfl⟩ ?_
+  refine SameR.trans (y := { x with state := x.state.setReset x.id r i }) ⟨rfl, rfl, rfl, fun _ => rfl, fun h => h⟩ ?_
   exact (notifySend_same _).trans ((notifyPush_same _).trans (notifyRecv_same _))
 macro_rules | `(tactic| samer) => `(tactic| with_reducible exact setReset_same _ _ _)
 
 /-- a new `state` computed from the entry itself: closedness must be kept -/
 theorem setState_same (x : Stream) (st' : State) (h : x.state.isClosed = true → st'.isClosed = true) :
-    SameR x { x with state := st' } := ⟨rfl, rfl, rfl, h⟩
+    SameR x { x with state := st' } := ⟨rfl, rfl, rfl, h, fun h => h⟩
 
 open Lean Elab Tactic Meta in
-/-- goal `Ext s0 (f … s …)` (possibly under `.1`): peel `f` with the lemma `f_ext` found by name -/
-elab "ext_head" : tactic => withMainContext do
+/-- the head function of the target state of an `Ext` goal, looking through `.1`/`.2` -/
+partial def extHeadOf (e : Expr) : Option Expr :=
+  match e with
+  | .proj _ _ b => extHeadOf b
+  | .mdata _ b => extHeadOf b
+  | _ =>
+    let f := e.getAppFn
+    match f with
+    | .const n _ =>
+      if n == ``Prod.fst || n == ``Prod.snd then
+        match e.getAppArgs.back? with
+        | some a => extHeadOf a
+        | none => none
+      else some f
+    | .fvar _ => if e.isFVar then some f else none
+    | _ => none
+
+open Lean Elab Tactic Meta in
+/-- One step on a goal `Ext s0 t`, chosen by looking at the head of `t` only (no search):
+    * `t` a variable: close the goal with a hypothesis, `Ext.refl`, or rewrite along a destructuring
+      equation `p = (t, _)`;
+    * `t = f … s …`: `Ext.trans ?_ (f_ext ..)` with the lemma found BY NAME (`<last component of f>_ext`),
+      `modStream`/`modStreamW`/`modRecv` leave their side condition when `samer` cannot prove it;
+    * `t` a structure literal: the field-update lemmas;
+    * anything else (`if`, `match`, `let`): fails, so that `ext_let` / `split` take over. -/
+elab "ext_step" ih:(ident)? : tactic => withMainContext do
   let g ← getMainGoal
   let t ← instantiateMVars (← g.getType)
-  unless t.isAppOfArity ``Ext 2 do throwError "ext_head: not an Ext goal"
+  unless t.isAppOfArity ``Ext 2 do throwError "ext_step: not an Ext goal"
   let e := t.appArg!
-  let rec headOf (e : Expr) (fuel : Nat) : Option Name :=
-    match fuel with
-    | 0 => none
-    | fuel + 1 =>
-      match e with
-      | .proj _ _ b => headOf b fuel
-      | .mdata _ b => headOf b fuel
-      | _ =>
-        match e.getAppFn with
-        | .const n _ =>
-          if n == ``Prod.fst || n == ``Prod.snd then
-            match e.getAppArgs.back? with
-            | some a => headOf a fuel
-            | none => none
-          else some n
-        | _ => none
-  match headOf e 8 with
-  | none => throwError "ext_head: no head constant"
-  | some n =>
+  match extHeadOf e with
+  | none => throwError "ext_step: no head"
+  | some (.fvar _) =>
+    evalTactic (← `(tactic| first
+      | with_reducible exact Ext.refl _
+      | with_reducible assumption
+      | with_reducible refine Ext.of_fst_eq (by assumption) ?_))
+  | some (.const n _) =>
     if n == ``Streams.mk then
       evalTactic (← `(tactic| first
         | with_reducible refine Ext.trans ?_ (setCounts_ext ..)
@@ -184,26 +212,49 @@ elab "ext_head" : tactic => withMainContext do
         | with_reducible refine Ext.trans ?_ (setTask_ext ..)
         | with_reducible refine Ext.trans ?_ (unlink_ext ..)
         | with_reducible refine Ext.trans ?_ (remove_ext ..)))
+    else if n == ``Streams.modStream then
+      evalTactic (← `(tactic| first
+        | ((with_reducible refine Ext.trans ?_ (modStream_ext _ _ _ ?side)); case side => intro _ _; samer)
+        | with_reducible refine Ext.trans ?_ (modStream_ext _ _ _ ?_)))
+    else if n == ``Streams.modStreamW then
+      evalTactic (← `(tactic| first
+        | ((with_reducible refine Ext.trans ?_ (modStreamW_ext _ _ _ ?side)); case side => intro _ _; samer)
+        | with_reducible refine Ext.trans ?_ (modStreamW_ext _ _ _ ?_)))
+    else if n == ``Streams.modRecv then
+      evalTactic (← `(tactic| first
+        | ((with_reducible refine Ext.trans ?_ (modRecv_ext _ _ ?side)); case side => intro _; exact ⟨rfl, rfl, rfl⟩)
+        | with_reducible refine Ext.trans ?_ (modRecv_ext _ _ ?_)))
+    else if n == ``ite || n == ``dite || (← isMatcher n) then
+      throwError "ext_step: control structure"
     else
-    let last := match n with
-      | .str _ s => s
-      | _ => "?"
-    let lemmaName := (`H2V.Lemmas.ConnRecvP).str (last ++ "_ext")
-    unless (← getEnv).contains lemmaName do throwError "ext_head: no lemma {lemmaName}"
-    evalTactic (← `(tactic| with_reducible refine Ext.trans ?_ ($(mkIdent lemmaName) ..)))
-
-/-- one step on an `Ext` goal (alternatives are tried bottom-up) -/
-syntax "ext_step" : tactic
-macro_rules | `(tactic| ext_step) => `(tactic| with_reducible refine Ext.trans ?_ (modRecv_ext _ _ ?_))
-macro_rules | `(tactic| ext_step) => `(tactic| with_reducible refine Ext.trans ?_ (modStreamW_ext _ _ _ ?_))
-macro_rules | `(tactic| ext_step) => `(tactic| with_reducible refine Ext.trans ?_ (modStream_ext _ _ _ ?_))
-macro_rules | `(tactic| ext_step) => `(tactic| (with_reducible refine Ext.trans ?_ (modRecv_ext _ _ ?side)); case side => intro _; exact ⟨rfl, rfl, rfl⟩)
-macro_rules | `(tactic| ext_step) => `(tactic| (with_reducible refine Ext.trans ?_ (modStreamW_ext _ _ _ ?side)); case side => intro _ _; samer)
-macro_rules | `(tactic| ext_step) => `(tactic| (with_reducible refine Ext.trans ?_ (modStream_ext _ _ _ ?side)); case side => intro _ _; samer)
-macro_rules | `(tactic| ext_step) => `(tactic| ext_head)
-macro_rules | `(tactic| ext_step) => `(tactic| with_reducible refine Ext.of_fst_eq (by assumption) ?_)
-macro_rules | `(tactic| ext_step) => `(tactic| with_reducible assumption)
-macro_rules | `(tactic| ext_step) => `(tactic| with_reducible exact Ext.refl _)
+      let last := match n with
+        | .str _ s => s
+        | _ => "?"
+      let lemmaName := (`H2V.Lemmas.ConnRecvP).str (last ++ "_ext")
+      if (← getEnv).contains lemmaName then
+        -- `Ext.trans ?_ (lemma args)`: unify the target of the lemma with `e`; hypotheses of the lemma
+        -- that unification does not determine become new goals
+        let s0 := t.appFn!.appArg!
+        let lem ← mkConstWithFreshMVarLevels lemmaName
+        let (args, _, concl) ← forallMetaTelescopeReducing (← inferType lem)
+        unless concl.isAppOfArity ``Ext 2 do throwError "ext_step: {lemmaName} is not an Ext lemma"
+        let mid := concl.appFn!.appArg!
+        unless (← withReducible <| isDefEq concl.appArg! e) do throwError "ext_step: {lemmaName} does not apply"
+        let g1 ← mkFreshExprSyntheticOpaqueMVar (mkApp2 (mkConst ``Ext) s0 mid)
+        let mut newGoals := #[g1.mvarId!]
+        for a in args do
+          let a ← instantiateMVars a
+          if a.isMVar then
+            unless (← a.mvarId!.isAssigned) do
+              unless (← isProp (← inferType a)) do throwError "ext_step: {lemmaName} leaves data undetermined"
+              newGoals := newGoals.push a.mvarId!
+        g.assign (mkApp5 (mkConst ``Ext.trans) s0 mid e g1 (mkAppN lem args))
+        replaceMainGoal newGoals.toList
+      else
+        match ih with
+        | some ih => evalTactic (← `(tactic| with_reducible refine Ext.trans ?_ ($ih ..)))
+        | none => throwError "ext_step: no lemma {lemmaName}"
+  | _ => throwError "ext_step: no head"
 
 open Lean Elab Tactic Meta in
 /-- goal `Ext s0 (let x := v; b)` (possibly under `.1`):
@@ -246,11 +297,24 @@ elab "ext_let" : tactic => withMainContext do
       replaceMainGoal [g']
   | _ => throwError "ext_let: no let"
 
+open Lean Elab Tactic Meta in
+/-- `∀ …, Ext s t`: introduce the binders -/
+elab "ext_intro" : tactic => withMainContext do
+  let g ← getMainGoal
+  let t ← instantiateMVars (← g.getType)
+  unless t.isForall do throwError "ext_intro: not a ∀"
+  let rec concl (e : Expr) : Expr := match e with
+    | .forallE _ _ b _ => concl b
+    | .mdata _ b => concl b
+    | e => e
+  unless (concl t).isAppOfArity ``Ext 2 do throwError "ext_intro: conclusion is not Ext"
+  let (_, g') ← g.intros
+  replaceMainGoal [g']
+
 macro "ext_auto" : tactic =>
-  `(tactic| repeat (first | ext_step | ext_let | split | dsimp (config := { zeta := false }) only))
+  `(tactic| repeat (any_goals (first | ext_step | ext_intro | ext_let | split | dsimp (config := { zeta := false }) only)))
 /-- the same with an induction hypothesis `ih : ∀ …, Ext s (loop n … s …)` -/
 macro "ext_auto_ih" ih:ident : tactic =>
-  `(tactic| repeat (first | ext_step | with_reducible refine Ext.trans ?_ ($ih ..) | ext_let | split |
-      dsimp (config := { zeta := false }) only))
+  `(tactic| repeat (any_goals (first | ext_step $ih | ext_intro | ext_let | split | dsimp (config := { zeta := false }) only)))
 
 end H2V.Lemmas.ConnRecvP
